@@ -338,6 +338,21 @@ def run(ctx: core.Run):
     if live:
         ctx.sample({"document": live[0]["toks"][:300], "padding": live[0]["pad"]})
 
+    # ------------------------------------------------------------------ corpus of past failures / witnesses (bytes)
+    corpus_file = core.VERIF / "harness" / "corpus" / "C01.json"
+    if corpus_file.exists():
+        corpus = json.loads(corpus_file.read_text())
+        creq = [("psd.dec", e["file"]) for e in corpus]
+        for e, a in zip(corpus, cc.pbatch(creq)):
+            ctx.corr_cases += 1
+            ctx.count(("corpus", e["file"][:200]), nontrivial=True)
+            r = raw_parse_tokens(unhx(e["file"]), e.get("encoding", "macroman"))
+            if r[0] == "ok" and (a[0] != "ok" or a[1] != r[1] or int(a[2]) != r[2]):
+                ctx.disagree("corpus: PSD.read structure != model dec", {"note": e.get("note"), "model": a[0]})
+            elif r[0] == "err" and (a[0] != "err" or a[1] != r[1]):
+                ctx.disagree("corpus: PSD.read exception != model dec", {"note": e.get("note"), "py": r[1], "model": a[:2]})
+        ctx.hist("corpus", "entries", len(corpus))
+
     # ------------------------------------------------------------------ reader error paths (spot check; C02/C06 own this)
     trunc_reqs, trunc_exp = [], []
     ok_docs = [c for c in dec_cases if not c["forced"]]
@@ -408,7 +423,7 @@ def run(ctx: core.Run):
     opaque_seen, opaque_fail = collections.Counter(), collections.Counter()
     for K, xs in sorted(sink.items(), key=lambda kv: kv[0].__name__):
         nm = K.__name__
-        if nm in po.CONTEXT_DEPENDENT:
+        if nm in po.CONTEXT_DEPENDENT or po.token_level(K):
             continue
         step = max(1, len(xs) // per_class)
         for x in xs[::step][:per_class]:
@@ -418,23 +433,28 @@ def run(ctx: core.Run):
     # default-constructed instances: a default need not be a well-formed value (empty lists where the format fixes a
     # count, zero-length keys): reported as information, not as failures
     dflt_bad = []
+    dflt_res = {}
     for K, xs in po.default_instances(classes).items():
-        if K.__name__ in po.CONTEXT_DEPENDENT:
+        if K.__name__ in po.CONTEXT_DEPENDENT or po.token_level(K):
             continue
         try:
             v, kw, d = po.check_instance(xs[0])
         except Exception as e:  # noqa
             v = "oracle-error:" + type(e).__name__
         ctx.evaluations += 1
+        dflt_res[K.__name__] = v
         if v not in ("ok", "na"):
             dflt_bad.append(f"{K.__name__}: {v}")
     ctx.extra["default_instances_not_round_tripping (information)"] = sorted(dflt_bad)
     skeleton = sorted(po.CONTEXT_DEPENDENT)
-    opaque = sorted(n for n in classes if n not in po.CONTEXT_DEPENDENT)
+    opaque = sorted(n for n, K in classes.items() if n not in po.CONTEXT_DEPENDENT and not po.token_level(K))
     ctx.model_coverage = {
         "modelled_and_proved (skeleton)": skeleton,
-        "opaque: searched, not proved": {n: {"instances": opaque_seen.get(n, 0), "failures": opaque_fail.get(n, 0)} for n in opaque},
-        "opaque_classes_without_any_instance": sorted(n for n in opaque if opaque_seen.get(n, 0) == 0),
+        "opaque: searched, not proved": {n: {"instances": opaque_seen.get(n, 0), "failures": opaque_fail.get(n, 0),
+                                             "default_instance": dflt_res.get(n, "not constructible")} for n in opaque},
+        "opaque_classes_with_no_fixture_or_variant_instance": sorted(n for n in opaque if opaque_seen.get(n, 0) == 0),
+        "engine-data token classes (reader dispatched by the tokenizer; owned by C18)":
+            sorted(n for n, K in classes.items() if po.token_level(K)),
     }
     ctx.rule = (
         "documents: built from the real classes by harness/gen_c01.py (version 1/2 x padding 1/2/4 x 5 encodings; every "
